@@ -18,12 +18,12 @@ RULE = ("0-5 parameters, values in {int, float, None, str (incl. multi-character
         "add / remove / build / build twice / mutate a returned dict / rejected non-str name (AttributeError), duplicate "
         "(KeyError), remove unknown (KeyError); non-trivial = >=2 multi-valued parameters live at a build and >=1 remove "
         "or rejected op before it; distinct = (declared lengths and kinds at each build, op kinds)"
-        "; also: equal-valued values of different type / sign (1, 1.0, True, 0.0, -0.0), str-subclass strings, agent classes / objects as single values, the constructor dict checked for aliasing, collections whose elements are unhashable (lists, dicts, rows of a 2-D array)")
+        "; also: equal-valued values of different type / sign (1, 1.0, True, 0.0, -0.0), str-subclass strings, agent classes / objects as single values, the constructor dict checked for aliasing, collections whose elements are unhashable (lists, dicts, rows of a 2-D array), one collection object declared under two names")
 COMPONENTS = {"real": ["ECAgent.Batching.ParameterList.__init__ / add_parameter / remove_parameter / build"],
               "stub": ["none - the reference is an independent nested-loop product"]}
 PROBES = ["empty_collection", "no_parameters", "repeated_values", "string_value", "rebuild_after_mutation", "ndarray_value",
           "range_value", "constructor_dict", "reject_nonstr", "reject_duplicate", "reject_unknown", "constructor_rejected",
-          "single_value_is_agent_class_or_object", "string_value_of_a_str_subclass", "values_with_unhashable_elements"]
+          "single_value_is_agent_class_or_object", "string_value_of_a_str_subclass", "values_with_unhashable_elements", "one_object_declared_under_two_names"]
 TECHNIQUE = "deterministic simulation: seeded declare/remove/build histories with injected rejected declarations and caller-side mutation vs an independent nested-loop product"
 LEVEL_TEXT = ("Seeded search over declaration histories; every build must equal an independent nested-loop product (first-declared "
               "parameter slowest), be repeatable, return fresh dictionaries and leave declaration and caller's value objects "
@@ -143,7 +143,7 @@ def generate(rng, tier):
     for _ in range(rng.randint(3, 30 if tier == "thorough" else 20)):
         r = rng.random()
         if r < 0.3:
-            ops.append({"op": "add", "name": rng.choice(names), "v": gen_val(rng)})
+            ops.append({"op": "add", "name": rng.choice(names), "v": gen_val(rng), "same_object_as_last": rng.random() < 0.12})
         elif r < 0.42:
             ops.append({"op": "remove", "name": rng.choice(names)})
         elif r < 0.72:
@@ -299,11 +299,16 @@ def execute(sc, ctx):
             same = (np.array_equal(obj, snap) if isinstance(obj, np.ndarray) else obj == snap)
             ctx.check(same, "caller-value-modified", f"{where}: {snap!r} became {obj!r}")
 
+    last_value = None
     for op in sc["ops"]:
         kind = op["op"]
         if kind == "add":
             name, spec = op["name"], op["v"]
             v = decode(spec)
+            if op.get("same_object_as_last") and last_value is not None:
+                # the VERY SAME object declared under a second name (sizes = [10, 20, 30]; width=sizes, height=sizes)
+                spec, v = last_value
+                ctx.probe("one_object_declared_under_two_names")
             if any(n == name for n, _ in decl):
                 ctx.fault("reject.param")
                 ctx.probe("reject_duplicate")
@@ -312,6 +317,7 @@ def execute(sc, ctx):
                 shape.append(["dup"])
             else:
                 ctx.expect_ok("add", pl.add_parameter, name, v)
+                last_value = (spec, v)
                 decl.append((name, spec))
                 inputs.append((v, v if spec["k"] == "agentclass" else copy.deepcopy(v)))
                 shape.append(["add", spec["k"]])
